@@ -25,6 +25,14 @@ sequential result as the oracle of a threaded run) and, where cheap, tied to the
      div, sqrt, exp with non-dyadic results; `with` blocks switching precision) with
      `sys.setswitchinterval(1e-6)` and barriers, warm and cold compiled-function cache; every result is
      compared with the sequential result.  Plus a function re-entered from a Python callback (fpy_primitive).
+ (D) FRESH-PROCESS ORACLE  a pristine worker is forked before anything is evaluated; it answers every call of
+     part D ALONE in a forked child.  After parts A-C a random history of ~2600 calls interleaves number-layer
+     operations (`fpy2.ops` under fixed-point / float / integer / real contexts), library primitives
+     (`core.max_p`, `min_n`, `frexp`, `ldexp`, `logb`, `split`, `modf`, `eft.*`) and FPy functions over clusters of
+     equal-but-distinguishable operands (+0/-0, 1 as float/int/Fraction/Float encodings, NaNs, infinities) and
+     related contexts; every call is judged against the fresh-process answer, so process-wide caches BELOW the
+     evaluator (memo tables, result caches of primitives, class-level caches, MPFR settings) are visible; a
+     difference is reported with the history and a two-call witness.
 """
 from __future__ import annotations
 import copy, gc, importlib.util, itertools, json, os, random, shutil, signal, sys, tempfile, threading, time, traceback
@@ -1044,16 +1052,403 @@ def part_c(rep, R, tier, tmp):
         sys.setswitchinterval(old_si)
     rep.cov['C_schedules'] = sched
 
+# --------------------------------------------------------------------------- (D) fresh-process oracle
+
+# Process-wide state BELOW the evaluator (memo tables in the number layer, result caches in primitives,
+# class-level caches in contexts, MPFR settings) is invisible to "re-evaluate and compare with R0" when the
+# first evaluation is already polluted, and to histories that only repeat one call.  Part D therefore
+#  * forks a pristine worker (the "zygote") at the very start of the run, before ANY evaluation, with every
+#    function of part D already defined in it; the zygote answers "what does this call return in a process
+#    where nothing else has been evaluated?" by forking one child per question (the call runs alone, the child
+#    exits); the answer is by definition independent of any history, so it is memoized;
+#  * runs, in the harness process and AFTER parts A-C (their thousands of evaluations are history too), a long
+#    random history over CLUSTERS of calls whose members are equal in what a careless cache key sees and
+#    different in what the result depends on: the same operation on +0 / -0, on 1 as float / int / Fraction /
+#    Float in several encodings, on NaNs and infinities of both signs; under contexts that share some
+#    attributes (same format other rounding mode, same precision other exponent range, same width other
+#    split, fixed vs float vs integer vs real); number-layer operations (`fpy2.ops`), library primitives
+#    (`core.max_p`, `min_n`, `frexp`, `ldexp`, `logb`, `split`, `modf`), `eft.*`, and FPy functions (hand-written
+#    ones that observe the sign of a fixed-point zero, that call primitives, plus proggen programs);
+#  * judges EVERY call of the history against the fresh-process answer; a difference is a violation, reported
+#    with the history and, when one exists, a two-call witness (`after`, `call`) found by replaying pairs in
+#    forked children.
+
+D_FIXED = ['fp.MPFixedContext(-8)', 'fp.MPFixedContext(-4, fp.RM.RTZ)', 'fp.MPFixedContext(-8, fp.RM.RTP)', 'fp.MPFixedContext(-1, fp.RM.RAZ)',
+           'fp.INTEGER', 'fp.MPFixedContext(0, fp.RM.RTN)',
+           'fp.FixedContext(True, -6, 24, fp.RM.RNE, fp.OV.SATURATE)', 'fp.FixedContext(True, -6, 24, fp.RM.RTZ, fp.OV.SATURATE)',
+           'fp.FixedContext(True, -3, 24, fp.RM.RNE, fp.OV.WRAP)', 'fp.FixedContext(False, -6, 24, fp.RM.RNE, fp.OV.SATURATE)', 'fp.SINT8', 'fp.UINT8']
+D_FLOAT = ['fp.FP64', 'fp.FP32', 'fp.FP16', 'fp.BF16', 'fp.TF32', 'fp.IEEEContext(11, 64, fp.RM.RTP)', 'fp.IEEEContext(11, 64, fp.RM.RTZ)',
+           'fp.IEEEContext(8, 32, fp.RM.RTN)', 'fp.IEEEContext(5, 32, fp.RM.RNE)', 'fp.IEEEContext(5, 16, fp.RM.RAZ)', 'fp.IEEEContext(4, 8, fp.RM.RNE)',
+           'fp.MPFloatContext(24, fp.RM.RNE)', 'fp.MPFloatContext(53, fp.RM.RNE)', 'fp.MPFloatContext(11, fp.RM.RTZ)', 'fp.MPFloatContext(3, fp.RM.RNA)',
+           'fp.MPSFloatContext(24, -149, fp.RM.RNE)', 'fp.MPSFloatContext(24, -20, fp.RM.RNE)', 'fp.MPSFloatContext(53, -1074, fp.RM.RTO)',
+           'fp.EFloatContext(4, 8, False, fp.EFloatNanKind.MAX_VAL, 1, fp.RM.RNE)', 'fp.EFloatContext(4, 8, False, fp.EFloatNanKind.MAX_VAL, 0, fp.RM.RNE)',
+           'fp.EFloatContext(5, 8, False, fp.EFloatNanKind.MAX_VAL, 1, fp.RM.RNE)', 'fp.IEEEContext(6, 32, fp.RM.RNE)', 'fp.IEEEContext(4, 16, fp.RM.RNE)',
+           'fp.IEEEContext(3, 8, fp.RM.RNE)', 'fp.IEEEContext(7, 32, fp.RM.RTZ)']
+D_OTHER = ['fp.REAL', None]
+D_VALS = {   # groups of operands that are EQUAL as numbers (or all NaN) and distinguishable as objects
+    'zero': ['0.0', '-0.0', 'fp.Float(s=False, c=0, exp=0)', 'fp.Float(s=True, c=0, exp=0)', 'fp.Float(s=True, c=0, exp=-20)', '0', 'Fraction(0)',
+             'fp.Float.from_float(-0.0)'],
+    'one': ['1.0', '1', 'Fraction(1)', 'fp.Float(c=1, exp=0)', 'fp.Float(c=4, exp=-2)', 'fp.Float(c=1 << 60, exp=-60)', 'fp.Float.from_float(1.0)'],
+    'mone': ['-1.0', '-1', 'Fraction(-1)', 'fp.Float(s=True, c=1, exp=0)', 'fp.Float(s=True, c=8, exp=-3)'],
+    'three': ['3.0', '3', 'Fraction(3)', 'fp.Float(c=3, exp=0)', 'fp.Float(c=12, exp=-2)', 'fp.Float.from_float(3.0)'],
+    'tenth': ['0.1', 'Fraction(3602879701896397, 36028797018963968)', 'fp.Float.from_float(0.1)', 'fp.Float(c=3602879701896397, exp=-55)'],
+    'third': ['Fraction(1, 3)', 'Fraction(2, 6)'],
+    'neg': ['-2.25', 'Fraction(-9, 4)', 'fp.Float(s=True, c=9, exp=-2)', 'fp.Float(s=True, c=36, exp=-4)'],
+    'big': ['1e300', 'fp.Float.from_float(1e300)', '65504.0', 'fp.Float(c=2047, exp=5)'],
+    'tiny': ['2.0 ** -30', 'Fraction(1, 1 << 30)', 'fp.Float(c=1, exp=-30)', '5e-324', 'fp.Float(c=1, exp=-1074)'],
+    'nan': ["float('nan')", 'fp.Float(isnan=True)', 'fp.Float(isnan=True, s=True)'],
+    'inf': ["float('inf')", "float('-inf')", 'fp.Float(isinf=True)', 'fp.Float(isinf=True, s=True)'],
+    'half': ['0.5', 'Fraction(1, 2)', 'fp.Float(c=1, exp=-1)', '2.5', 'fp.Float(c=5, exp=-1)', '-0.5', '-2.5'],
+}
+D_UNARY = ['neg', 'fabs', 'sqrt', 'cbrt', 'exp', 'exp2', 'expm1', 'log', 'log2', 'log1p', 'sin', 'cos', 'atan', 'tanh', 'floor', 'ceil', 'trunc', 'nearbyint', 'roundint',
+           'round', 'round_exact', 'cast', 'signbit', 'isnan', 'isnormal', 'logb']
+D_BINARY = ['add', 'sub', 'mul', 'div', 'copysign', 'fmin', 'fmax', 'fmod', 'remainder', 'pow', 'hypot', 'atan2', 'fdim', 'round_at']
+D_NULLARY = ['const_pi', 'const_e', 'const_log2e', 'nan', 'inf']
+
+D_FPY_SRC = """
+from fpy2.libraries import core, eft
+
+@fp.fpy
+def recip_scaled(x):
+    with fp.MPFixedContext(-8):
+        t = x * 3
+    return 1 / t
+
+@fp.fpy
+def histogram_bin(x):
+    with fp.MPFixedContext(-4, fp.RM.RTZ):
+        t = x * 3
+    return t
+
+@fp.fpy
+def sign_of_root(x):
+    with fp.FixedContext(True, -6, 24, fp.RM.RNE, fp.OV.SATURATE):
+        s = fp.sqrt(abs(x)) * x
+    with fp.INTEGER:
+        k = fp.round(x)
+    return (fp.copysign(1, s), 1 / k, fp.signbit(s))
+
+@fp.fpy
+def prec_here():
+    return core.max_p()
+
+@fp.fpy
+def prec_mix(x):
+    with fp.FP32:
+        p = core.max_p()
+        a, b = eft.classic_2mul(x, x)
+    q = core.max_p()
+    c, d = eft.fast_2sum(x, 1)
+    return (p, q, a, b, c, d)
+
+@fp.fpy
+def lit_step(x):
+    y = x + 0.1
+    with fp.MPFixedContext(-8, fp.RM.RTP):
+        z = y * 3 - 0.3
+    return (y, z, fp.sqrt(z * z) / 7)
+
+@fp.fpy
+def neg_chain(x):
+    with fp.INTEGER:
+        a = -x
+    with fp.MPFixedContext(-2):
+        b = -x
+        c = a * b
+    return (1 / a, 1 / b, c, fp.atan2(b, -1))
+
+@fp.fpy
+def frexp_sum(x):
+    m, e = core.frexp(fp.round(x))
+    return (m, e, core.ldexp(m, e), core.logb(fp.round(abs(x) + 1)))
+"""
+D_FPY_CALLS = {'recip_scaled': ['zero', 'one', 'tiny'], 'histogram_bin': ['zero', 'one', 'neg'], 'sign_of_root': ['zero', 'one', 'neg', 'half'],
+               'lit_step': ['zero', 'tenth', 'one'], 'neg_chain': ['zero', 'half', 'tiny'], 'prec_mix': ['one', 'tenth', 'three'],
+               'frexp_sum': ['three', 'tenth', 'big']}
+
+_D_NS = {}
+
+def d_namespace():
+    if not _D_NS:
+        import fpy2.ops as ops_mod
+        from fpy2.libraries import core, eft
+        _D_NS.update({'fp': fp, 'Fraction': Fraction, 'ops': ops_mod, 'core': core, 'eft': eft, 'float': float})
+    return _D_NS
+
+def d_obs(v) -> str:
+    if v is None: return 'none'
+    if isinstance(v, fp.Context): return 'ctx ' + repr(v)
+    try: return 'ok ' + show_val(v)
+    except Unsupported: return 'ok ' + repr(v)[:200]
+    except ValueError:      # an integer too large for int -> str (a fixed-point exp of a large number): digest instead of digits
+        return 'ok huge ' + _digest(v)
+
+def _digest(v) -> str:
+    import hashlib
+    if isinstance(v, (list, tuple)): return '(' + ' '.join(_digest(x) for x in v) + ')'
+    if isinstance(v, fp.Float) and not (v.isnan or v.isinf):
+        return f'{int(v.s)}:{v.exp}:{v.c.bit_length()}:' + hashlib.sha256(v.c.to_bytes((v.c.bit_length() + 7) // 8 or 1, 'big')).hexdigest()[:16]
+    try: return show_val(v)
+    except Exception: return type(v).__name__
+
+def d_eval(desc) -> str:
+    """evaluate one call descriptor {'call': expr, 'args': [expr...], 'ctx': expr|None} -> canonical observation"""
+    ns = d_namespace()
+    try:
+        f = eval(desc['call'], ns)
+        args = [eval(a, ns) for a in desc['args']]
+        ctx = eval(desc['ctx'], ns) if desc['ctx'] else None
+        v = with_alarm(lambda: f(*args, ctx=ctx) if ctx is not None else f(*args), 10)
+    except _Timeout:
+        return 'timeout'
+    except RecursionError:
+        return 'err RecursionError'
+    except Exception as e:   # noqa
+        return 'err ' + type(e).__name__
+    return d_obs(v)[:20000]
+
+def d_key(desc): return json.dumps(desc, sort_keys=True)
+
+class Zygote:
+    """pristine worker: forked before any evaluation; runs each question alone in a forked child"""
+    def __init__(self, par=12):
+        q_r, q_w = os.pipe(); a_r, a_w = os.pipe()
+        sys.stdout.flush(); sys.stderr.flush()
+        pid = os.fork()
+        if pid == 0:
+            try:
+                os.close(q_w); os.close(a_r)
+                gc.collect(); gc.freeze()
+                self._serve(os.fdopen(q_r, 'r'), os.fdopen(a_w, 'w'), par)
+            finally:
+                os._exit(0)
+        os.close(q_r); os.close(a_w)
+        self.pid = pid; self.q = os.fdopen(q_w, 'w'); self.a = os.fdopen(a_r, 'r')
+        self.memo = {}; self.forks = 0
+    @staticmethod
+    def _serve(q, a, par):
+        for line in q:
+            batch = json.loads(line)
+            out = [None] * len(batch); pending = {}; i = 0
+            while i < len(batch) or pending:
+                while i < len(batch) and len(pending) < par:
+                    r, w = os.pipe()
+                    pid = os.fork()
+                    if pid == 0:
+                        try:
+                            os.close(r)
+                            gc.disable()      # a collection in the child would touch (copy) every page of the parent
+                            res = json.dumps([d_eval(d)[:4000] for d in batch[i]])      # the sequence runs in order, alone in this child
+                            os.write(w, res.encode('utf-8', 'replace'))
+                        except BaseException as e:   # noqa
+                            try: os.write(w, json.dumps(['child-error ' + repr(e)[:200]] * len(batch[i])).encode())
+                            except Exception: pass
+                        finally:
+                            os._exit(0)
+                    os.close(w); pending[pid] = (i, r); i += 1
+                pid, _ = os.wait()
+                if pid in pending:
+                    j, r = pending.pop(pid)
+                    chunks = []
+                    while True:
+                        c = os.read(r, 65536)
+                        if not c: break
+                        chunks.append(c)
+                    os.close(r)
+                    try: out[j] = json.loads(b''.join(chunks).decode('utf-8', 'replace'))
+                    except Exception: out[j] = ['child-error no-answer'] * len(batch[j])
+            a.write(json.dumps(out) + '\n'); a.flush()
+    def ask_seqs(self, seqs):
+        """each element is a list of descriptors run in order in ONE fresh child; returns the list of observations of each child"""
+        if not seqs: return []
+        self.q.write(json.dumps(seqs) + '\n'); self.q.flush()
+        self.forks += len(seqs)
+        return json.loads(self.a.readline())
+    def alone(self, descs):
+        """fresh-process observation of each descriptor, evaluated ALONE in its own child (memoized: it cannot depend on any history)"""
+        need = list({d_key(x): x for x in descs if d_key(x) not in self.memo}.values())
+        for d, r in zip(need, self.ask_seqs([[d] for d in need])): self.memo[d_key(d)] = r[0]
+        return [self.memo[d_key(d)] for d in descs]
+    def close(self):
+        try:
+            self.q.close(); os.waitpid(self.pid, 0); self.a.close()
+        except Exception: pass
+
+def d_setup(R, tier, tmp):
+    """everything part D evaluates must exist BEFORE the zygote is forked: define the FPy functions (no evaluation),
+    fix the clusters.  Returns (clusters, module)."""
+    G = Gen(R)
+    gens = []
+    for pi in range(6 if tier == 'quick' else 30):
+        funcs = G.program(900000 + pi)
+        gens.append((funcs[-1]['name'], '\n'.join(src_func(f) for f in funcs)))
+    # generated programs go to their own modules (a rejected one must not lose the hand-written ones)
+    ns = d_namespace()
+    path = os.path.join(tmp, 'd_fixed.py'); open(path, 'w').write('import fpy2 as fp\n' + D_FPY_SRC)
+    dmod = load_module(path, 'fpyverif_c18_d_fixed')
+    ns['DM'] = dmod
+    gen_names = []
+    for name, text in gens:
+        path = os.path.join(tmp, f'd_{name}.py'); open(path, 'w').write('import fpy2 as fp\n\n' + text)
+        try: m = load_module(path, f'fpyverif_c18_d_{name}')
+        except Exception: continue
+        ns['G_' + name] = getattr(m, name); gen_names.append(name)
+    pick = lambda g: R.choice(D_VALS[g])
+    def ctx_family():
+        k = R.random()
+        if k < 0.45: base = R.sample(D_FIXED, 4) + R.sample(D_FLOAT, 2)
+        elif k < 0.85: base = R.sample(D_FLOAT, 5) + R.sample(D_FIXED, 1)
+        else: base = R.sample(D_FIXED, 2) + R.sample(D_FLOAT, 2) + D_OTHER
+        return base
+    clusters = []
+    def cluster(call, groups, ctxs, nvar):
+        """members: the same call on `nvar` draws of equal-but-distinguishable operands under each context"""
+        arg_sets = []
+        for _ in range(nvar):
+            a = [pick(g) for g in groups]
+            if a not in arg_sets: arg_sets.append(a)
+        if not groups: arg_sets = [[]]
+        clusters.append([{'call': call, 'args': a, 'ctx': c} for a in arg_sets for c in ctxs])
+    ncl = 26 if tier == 'quick' else 120
+    for _ in range(ncl):
+        k = R.random()
+        if k < 0.40:
+            cluster('ops.' + R.choice(D_UNARY), [R.choice(['zero', 'zero', 'zero', 'one', 'mone', 'neg', 'nan', 'inf', 'tenth', 'third', 'tiny', 'big', 'half'])], ctx_family(), 4)
+        elif k < 0.85:
+            g1 = R.choice(['zero', 'zero', 'one', 'three', 'neg', 'inf', 'nan', 'tenth', 'tiny', 'half'])
+            g2 = R.choice(['zero', 'one', 'three', 'three', 'mone', 'inf', 'tenth', 'big'])
+            cluster('ops.' + R.choice(D_BINARY), [g1, g2], ctx_family(), 4)
+        elif k < 0.93:
+            cluster('ops.fma', [R.choice(['zero', 'one', 'tenth']), R.choice(['three', 'zero', 'inf']), R.choice(['zero', 'mone', 'tiny'])], ctx_family(), 3)
+        else:
+            cluster('ops.' + R.choice(D_NULLARY), [], R.sample(D_FLOAT, 5) + R.sample(D_FIXED, 2), 1)
+    # library primitives: the same (often argument-less) call under many contexts
+    allc = D_FLOAT + D_FIXED
+    cluster('core.max_p', [], R.sample(D_FLOAT, 8) + R.sample(D_FIXED, 2) + ['fp.REAL'], 1)
+    cluster('core.min_n', [], R.sample(D_FIXED, 6) + R.sample(D_FLOAT, 4), 1)
+    for call, groups in [('core.frexp', ['three']), ('core.frexp', ['tenth']), ('core.modf', ['neg']), ('core.modf', ['half']), ('core.logb', ['three']), ('core.logb', ['tiny']),
+                         ('core.ldexp', ['three', 'three']), ('core.ldexp', ['tenth', 'mone']), ('core.split', ['tenth', 'three']), ('core.isinteger', ['three']),
+                         ('eft.fast_2sum', ['three', 'tenth']), ('eft.classic_2sum', ['tenth', 'three']), ('eft.priest_2sum', ['tenth', 'neg']),
+                         ('eft.classic_2mul', ['tenth', 'three']), ('eft.classic_2mul', ['tenth', 'tenth']), ('eft.fast_2mul', ['tenth', 'neg']),
+                         ('eft.ideal_2mul', ['tenth', 'tenth']), ('eft.classic_2fma', ['tenth', 'three', 'one']), ('eft.veltkamp_split', ['tenth', 'three'])]:
+        if tier == 'quick' and R.random() < 0.35: continue
+        cluster(call, groups, R.sample(['fp.FP64', 'fp.FP32', 'fp.FP16', 'fp.BF16', 'fp.MPFloatContext(24, fp.RM.RNE)', 'fp.MPFloatContext(53, fp.RM.RNE)',
+                                        'fp.IEEEContext(8, 32, fp.RM.RTZ)', 'fp.MPSFloatContext(24, -149, fp.RM.RNE)', 'fp.MPFixedContext(-8)', None], 5), 2)
+    cluster('DM.prec_here', [], R.sample(D_FLOAT, 7) + ['fp.INTEGER', None], 1)
+    for fn, groups in D_FPY_CALLS.items():
+        for g in groups:
+            cluster('DM.' + fn, [g], [None] + R.sample(D_FLOAT, 2) + R.sample(D_FIXED, 1), 5 if g == 'zero' else 3)
+    for name in gen_names:
+        arg_sets = [[pick(R.choice(['zero', 'one', 'tenth', 'neg', 'three'])), pick(R.choice(['zero', 'three', 'inf', 'tiny'])),
+                     '[' + ', '.join(pick(R.choice(['zero', 'one', 'tenth', 'neg'])) for _ in range(R.randint(1, 3))) + ']'] for _ in range(3)]
+        clusters.append([{'call': 'G_' + name, 'args': a, 'ctx': c} for a in arg_sets for c in [None, R.choice(D_FLOAT), R.choice(D_FIXED)]])
+    return clusters, dmod
+
+def d_witness(Z, history, step, desc, cluster_of):
+    """a two-call witness: an earlier call `e` such that a fresh process that runs `e` and then `desc` already disagrees"""
+    seen, cands = set(), []
+    same = [h for h in history[:step] if cluster_of.get(d_key(h)) == cluster_of.get(d_key(desc))]
+    for h in reversed(same + history[max(0, step - 400):step]):
+        k = d_key(h)
+        if k != d_key(desc) and k not in seen:
+            seen.add(k); cands.append(h)
+        if len(cands) >= 36: break
+    if not cands: return None
+    alone = Z.alone([desc])[0]
+    for e, r in zip(cands, Z.ask_seqs([[e, desc] for e in cands])):
+        if r[-1] != alone: return {'after': e, 'call': desc, 'alone': alone, 'after_it': r[-1]}
+    return None
+
+def d_groups(R, alld, cluster_of, cap=48):
+    """partition the calls into short fresh-process histories: within a group no two calls of one cluster and no two
+    calls of one function, so that the members of a group are not each other's pollution"""
+    order = list(alld); R.shuffle(order)
+    groups = []
+    for d in order:
+        for g in groups:
+            if len(g['m']) < cap and cluster_of[d_key(d)] not in g['c'] and d['call'] not in g['f']:
+                g['m'].append(d); g['c'].add(cluster_of[d_key(d)]); g['f'].add(d['call']); break
+        else:
+            groups.append({'m': [d], 'c': {cluster_of[d_key(d)]}, 'f': {d['call']}})
+    return [g['m'] for g in groups]
+
+def part_d(rep, R, tier, Z, clusters):
+    nsteps = 2600 if tier == 'quick' else 15000
+    cluster_of = {d_key(d): ci for ci, c in enumerate(clusters) for d in c}
+    alld = list({d_key(d): d for c in clusters for d in c}.values())
+    t0 = time.time()
+    # fork() costs ~0.1 s here, so the oracle has two layers.  (1) every call is answered by a fresh child that runs a
+    # GROUP of unrelated calls (other clusters, other functions); (2) one call of every cluster plus a random sample
+    # is also answered ALONE; a group answer that differs from the alone answer is already a violation
+    # (a history in a fresh process changed a result), and every difference seen later is re-judged against ALONE.
+    groups = d_groups(R, alld, cluster_of)
+    fresh, where = {}, {}
+    for g, obs in zip(groups, Z.ask_seqs(groups)):
+        for i, (d, o) in enumerate(zip(g, obs)): fresh[d_key(d)] = o; where[d_key(d)] = (g, i)
+    sample = [R.choice(c) for c in clusters] + R.sample(alld, min(40 if tier == 'quick' else 400, len(alld)))
+    reported, nviol = set(), 0
+    def report(x, got, want, hist, step, place):
+        nonlocal nviol
+        nviol += 1; rep.count('D:differs-from-fresh-process')
+        sig = (x['call'], x['ctx'])
+        if sig in reported or len(reported) >= 12: return
+        reported.add(sig)
+        wit = d_witness(Z, hist, step, x, cluster_of) if len(reported) <= 4 else None
+        same = [h for h in hist[:step] if cluster_of.get(d_key(h)) == cluster_of.get(d_key(x))]
+        rep.violation(f"history dependence below the evaluator: {x['call']}({', '.join(x['args'])}) ctx={x['ctx']} returns {got[:80]} {place} and {want[:80]} alone in a fresh process",
+                      {'part': 'D', 'call': x, 'after_the_history': got, 'alone_in_a_fresh_process': want, 'where': place, 'step': step,
+                       'two_call_witness': wit, 'earlier_calls_of_the_cluster': same[-12:], 'history_tail': hist[max(0, step - 25):step],
+                       'fpy_source': D_FPY_SRC if x['call'].startswith('DM.') else None, 'finding': None})
+    for d, o in zip(sample, Z.alone(sample)):
+        k = d_key(d)
+        if fresh[k] != o and 'timeout' not in (fresh[k], o):
+            g, i = where[k]
+            report(d, fresh[k], o, g, i, 'in a fresh process after %d unrelated calls' % i)
+        fresh[k] = o
+    rep.cov['D_fresh_oracle'] = {'distinct_calls': len(fresh), 'groups': len(groups), 'answered_alone': len(Z.memo), 'forked_children': Z.forks,
+                                 'wall_s': round(time.time() - t0, 1), 'clusters': len(clusters)}
+    for k, v in fresh.items():
+        rep.count('D:fresh:' + (v.split()[1] if v.startswith('err') and ' ' in v else v.split()[0]))
+    history = []
+    # bursts inside one cluster (its members right after one another), interleaved with members of other clusters
+    while len(history) < nsteps:
+        c = R.choice(clusters)
+        for d in [R.choice(c) for _ in range(R.randint(2, 8))]:
+            for x in ([R.choice(R.choice(clusters)), d] if R.random() < 0.35 else [d]):
+                got = d_eval(x)[:4000]
+                step = len(history); history.append(x)
+                rep.cov['evaluations'] += 1
+                rep.distinct.add(('D', d_key(x)))
+                k = d_key(x)
+                if got == fresh[k] or 'timeout' in (got, fresh[k]): continue
+                if nviol >= 40 and k not in Z.memo:     # a badly polluted tree: stop paying for confirmations, just count
+                    nviol += 1; rep.count('D:differs-from-fresh-process'); continue
+                alone = Z.alone([x])[0]          # the authoritative answer
+                if got != alone and alone != 'timeout':
+                    report(x, got, alone, history, step, 'in this process')
+                elif fresh[k] != alone:
+                    g, i = where[k]
+                    report(x, fresh[k], alone, g, i, 'in a fresh process after %d unrelated calls' % i)
+                    fresh[k] = alone
+    rep.cov['D_history'] = {'steps': len(history), 'differences': nviol, 'forked_children_total': Z.forks}
+    for x in history[:4]: rep.sample({'part': 'D', 'call': x, 'fresh': fresh[d_key(x)][:120]})
+
 # --------------------------------------------------------------------------- entry
 
 def run(rep, tier, seed):
     R = Prng(seed, 'C18')
     tmp = tempfile.mkdtemp(prefix='fpyverif_c18_', dir='/var/tmp')
+    Z = None
     try:
+        # part D's functions are DEFINED and its pristine worker is FORKED before anything is evaluated
+        clusters, _dmod = d_setup(Prng(seed, 'C18-D'), tier, tmp)
+        Z = Zygote()
         part_a(rep, R, tier, tmp)
         part_b(rep, R, tier, tmp)
         part_c(rep, R, tier, tmp)
+        part_d(rep, Prng(seed, 'C18-Dh'), tier, Z, clusters)     # last: parts A-C are history as well
     finally:
+        if Z is not None: Z.close()
         shutil.rmtree(tmp, ignore_errors=True)
         rep.cov.pop('B_model_done', None)
     rep.cov['rule'] = ('(A) proggen programs forced to write + return their list parameter and shape-specialised programs over random argument structures '
@@ -1062,6 +1457,9 @@ def run(rep, tier, seed):
                        '(B) sessions of ~45 units x ~300 random operations (eval, other ctx, stochastic ctx with own rng, other args, strategies, raising calls, '
                        'caller mutation of results/arguments, same-named twin, second interpreter, gc, re-entrant primitive callback); every re-evaluation judged against R0; '
                        '(C) 4-8 threads x 2-3 iterations x 40 items, switch interval 1e-6, barrier every 10 items, warm and cold compile cache, judged against sequential results; '
+                       '(D) a pristine worker forked before any evaluation answers each call ALONE in a forked child; a random history of ~2600 calls over clusters of '
+                       'equal-but-distinguishable operands (+0/-0, 1 as float/int/Fraction/Float encodings, NaNs, infinities) x related contexts (same format other mode, same precision other range, '
+                       'fixed/float/integer/real) over fpy2.ops, core.*/eft.* primitives, hand-written and generated FPy functions; EVERY call judged against the fresh-process answer; '
                        'distinct = distinct (part, program, arguments, ctx)')
     rep.assumptions += ['threaded runs SAMPLE schedules: GIL preemption inside C extensions (gmpy2/MPFR) and gmpy2\'s thread-local context are not modelled in Lean '
                         '(schedule_independent is about the model\'s atomic steps lookup|compile|insert|run)',
